@@ -621,8 +621,9 @@ impl<'a> ParserState<'a> {
             }
         } else {
             match text.parse::<f32>() {
-                Ok(num) => Ok(num),
-                Err(_) => Err(ParserError::malformed_number(self, context, text)),
+                // a literal that overflows to infinity cannot be written back as a number
+                Ok(num) if num.is_finite() => Ok(num),
+                _ => Err(ParserError::malformed_number(self, context, text)),
             }
         }
     }
@@ -643,8 +644,9 @@ impl<'a> ParserState<'a> {
             }
         } else {
             match text.parse::<f64>() {
-                Ok(num) => Ok(num),
-                Err(_) => Err(ParserError::malformed_number(self, context, text)),
+                // a literal that overflows to infinity cannot be written back as a number
+                Ok(num) if num.is_finite() => Ok(num),
+                _ => Err(ParserError::malformed_number(self, context, text)),
             }
         }
     }
